@@ -8,6 +8,7 @@ import py2v_store
 import py2v_storeops
 
 CONFIG = {
+    "source_ties": 'Since round 7 also tied statically: harness/py2v_storeops.py re-reads ArrayStore.clear / resize / the getters / the iterator on every run (Refine/StoreOpsRefine.v), next to the add-phase reader py2v_store.py.',
     "cone": ["Base/ListUtil.v", "Model/Store.v", "Proofs/StoreProofs.v", "Properties/C13.v", "Generated/StoreAddGen.v", "Refine/StoreAddRefine.v",
              "Model/StoreOpsFacts.v", "Generated/StoreOpsGen.v", "Refine/StoreOpsRefine.v"],
     "extra_property_files": ["Refine/StoreAddRefine.v", "Refine/StoreOpsRefine.v"],
